@@ -25,7 +25,7 @@ GNext ==
   \/ (EditScript /\ EditTail /\ hist' = Append(hist, [op |-> "script", sver |-> sver']))
   \/ (MakeCheck /\ pc = "idle" /\ NMakes(hist) < MaxEdits + 2 /\ ~TwoMakes(hist)
         /\ hist' = Log(Append(hist, [op |-> "make"])))
-  \/ ((Ack \/ LoadEnv \/ EnvOpen \/ EnvClose \/ Check \/ Touch \/ Script \/ DepsOpen \/ DepsClose
+  \/ ((Ack \/ LoadEnv \/ EnvOpen \/ EnvClose \/ Check \/ Touch \/ Script \/ DepsOpen \/ DepsClose \/ DepsRename \/ SkipDeps
         \/ CacheOpen \/ CacheClose \/ MkOpen \/ MkClose) /\ hist' = Log(hist))
 GSpec == GInit /\ [][GNext]_<<vars, hist>>
 \* a finished history: all edits used, the last step was a completed run
